@@ -458,9 +458,17 @@ def Mode.findHistory (md : Mode) (proj : Path) (isFile : Path → Bool) (calls :
     List (Except FindErr Path) :=
   calls.map fun c => md.find proj isFile c.1 c.2
 
-/-- match_require.rs: match_path_require_call — the string literal of a require call is
-normalised (keeping a leading `.`) before any locator sees it -/
-def matchPathRequireCall (literal : Path) : Path := normalize true literal
+/-- match_require.rs: match_path_require_call / normalize_require_literal — the string literal
+of a require call is normalised before any locator sees it: a relative or absolute literal as
+a whole (keeping a leading `.`); otherwise the first component (a source / alias name) is kept
+and only what follows is normalised (before the fix of F30 the whole literal was normalised
+and `pkg/../m` lost its source name) -/
+def matchPathRequireCall (literal : Path) : Path :=
+  match literal with
+  | .normal n :: rest =>
+    let tail := normalize false rest
+    if tail = [] ∨ tail = [.cur] then [.normal n] else push [.normal n] tail
+  | _ => normalize true literal
 
 /-- `RequireMode::find_require` on a call `require("<literal>")` -/
 def Mode.findCall (md : Mode) (proj : Path) (isFile : Path → Bool) (literal source : Path) :
